@@ -1,9 +1,17 @@
 package oper
 
+import "math"
+
 // BP BindingPower, Precedence
 // 这里使用 float 是因为可以更精细定义自定义操作符的优先级
 // e.g. 如果需要区分前后缀操作符优先级, 可以自己调整
 type BP float32
+
+// Prev 小于 bp 的最大 BP, 用于右结合: 右操作数需要绑定所有 lbp >= bp 的操作符
+// (bp-1 对于非整数优先级不正确, e.g. lbp 4.5 的操作符会被 bp 5 的右结合操作符吞掉)
+func (bp BP) Prev() BP {
+	return BP(math.Nextafter32(float32(bp), float32(math.Inf(-1))))
+}
 
 //goland:noinspection GoSnakeCaseUsage
 const (
